@@ -130,7 +130,7 @@ StepBlock ==
          txh2 == txh \cup HashesOf(in.entries)
          hist2 == MergeHist(hist, ob.hist, 1)
          known == txh2 \cap DOMAIN hist2
-         O == [exec |-> [x \in known |-> hist2[x].exec], rows |-> [x \in known |-> hist2[x].rows],
+         O == [self |-> FALSE, exec |-> [x \in known |-> hist2[x].exec], rows |-> [x \in known |-> hist2[x].rows],
                rated |-> ob.rated, rates |-> ObsRates(ob), bal |-> ObsBal(ob.bal)]
          res == ApplyBlock(cur, in, O)
          iss == res.iss \cup Compare(cur, res, in, ob, hist2)
